@@ -41,6 +41,7 @@ type Op struct {
 type Case struct {
 	ID    int64 `json:"id"`
 	Avail []int `json:"avail"` // Lancero device numbers present in the machine
+	HW    bool  `json:"hw,omitempty"` // Lancero devices carry simulated cards (lancero.NoHardware) and the real Sample runs (>= 0.2 s per card and start)
 	Ops   []Op  `json:"ops"`
 }
 
@@ -401,15 +402,60 @@ func genCase(r *lib.Rng, id int64, tier string) Case {
 		c.Ops = append(c.Ops, small)
 		c.Ops = append(c.Ops, filesOp(r, pickStr(r, []string{"out", "d1/d2", "run_a"})))
 	}
+	// what the cards deliver at a restart without Configure: other numbers of columns (and rows)
+	regeom := func(prev Op, sameRows bool) [][2]int {
+		var g [][2]int
+		for _, p := range prev.Geom {
+			nr := p[1]
+			if !sameRows && r.Chance(1, 2) {
+				nr = pickRows(r)
+			}
+			g = append(g, [2]int{r.Range(1, 4), nr})
+		}
+		return g
+	}
+	if r.Chance(1, 80) { // real Sample on simulated cards: few, they take >= 0.2 s per card and start
+		c.HW = true
+		o := genLRun(r, c.Avail, true, false)
+		rows := r.Range(2, 5)
+		for i := range o.Geom {
+			o.Geom[i] = [2]int{r.Range(1, 3), rows}
+		}
+		o.SepCols = r.Pick([]int{0, 0, rows, rows + 3})
+		o.SepCards = r.Pick([]int{0, 0, 64})
+		c.Ops = append(c.Ops, o, Op{Op: "lagain", Geom: regeom(o, true)})
+		if r.Bool() {
+			c.Ops = append(c.Ops, filesOp(r, "hw"))
+		}
+		if r.Bool() {
+			c.Ops = append(c.Ops, Op{Op: "lagain"})
+		}
+		return c
+	}
 	switch x := r.Intn(100); {
 	case x < 50: // Lancero history on one object
 		nops := r.Range(1, 3)
+		var prev *Op
 		for i := 0; i < nops; i++ {
-			if i > 0 && r.Chance(1, 6) {
-				c.Ops = append(c.Ops, Op{Op: "lagain"})
+			if prev != nil && r.Chance(1, 4) {
+				switch r.Intn(3) {
+				case 0:
+					c.Ops = append(c.Ops, Op{Op: "lagain"})
+				case 1: // the hardware streams something else now
+					c.Ops = append(c.Ops, Op{Op: "lagain", Geom: regeom(*prev, false)})
+				case 2: // a Configure request slips in while the source is Starting
+					m := genLRun(r, c.Avail, true, r.Chance(1, 8))
+					m.Op, m.Geom, m.N = "lmid", nil, r.Range(1, 4)
+					c.Ops = append(c.Ops, m)
+					if r.Bool() {
+						c.Ops = append(c.Ops, Op{Op: "lagain"})
+					}
+				}
 				continue
 			}
-			c.Ops = append(c.Ops, genLRun(r, c.Avail, false, r.Chance(1, 8)))
+			o := genLRun(r, c.Avail, false, r.Chance(1, 8))
+			c.Ops = append(c.Ops, o)
+			prev = &c.Ops[len(c.Ops)-1]
 		}
 		if r.Chance(1, 8) {
 			c.Ops = append(c.Ops, Op{Op: "lagain"})
@@ -550,6 +596,29 @@ func corpus() []Case {
 			{Op: "lrun", Req: []int{5, 3}, Nsamp: 1, First: 1, SepCards: 4, Geom: g(1, 4, 3, 4)},
 			{Op: "lrun", Req: []int{0}, Nsamp: 1, First: 1, SepCards: 4, Geom: g(2, 4)}}},
 		{Avail: all, Ops: []Op{{Op: "rprep", Devs: []int{3, 2}}, {Op: "files", Base: "ro", Off: true}}},
+		// restart without Configure while the cards deliver another geometry (stand-in for Sample, then the real
+		// Sample on simulated cards: 2 columns, then 4 columns of 4 rows)
+		{Avail: all, Ops: []Op{
+			{Op: "lrun", Req: []int{0}, Nsamp: 4, First: 1, Geom: g(2, 4)}, {Op: "lagain", Geom: g(4, 4)},
+			{Op: "lagain", Geom: g(1, 2)}, {Op: "lagain"}}},
+		{Avail: []int{0, 1}, HW: true, Ops: []Op{
+			{Op: "lrun", Req: []int{0}, Nsamp: 4, First: 1, Geom: g(2, 4)}, {Op: "lagain", Geom: g(4, 4)},
+			{Op: "files", Base: "hw"}, {Op: "lrun", Req: []int{0}, Nsamp: 4, First: 1, Geom: g(3, 4)}}},
+		{Avail: []int{0, 1}, HW: true, Ops: []Op{
+			{Op: "lrun", Req: []int{0, 1}, Nsamp: 1, First: 1, SepCols: 4, Geom: g(1, 3, 2, 3)},
+			{Op: "lagain", Geom: g(2, 3, 1, 3)}, {Op: "lagain"}}},
+		// a Configure request arrives while the source is Starting (between Sample and PrepareChannels): it must be
+		// refused; it removes a card / adds a card / only changes the numbering
+		{Avail: all, Ops: []Op{
+			{Op: "lrun", Req: []int{0, 1}, Nsamp: 1, First: 1, Geom: g(2, 4, 2, 4)},
+			{Op: "lmid", Req: []int{0}, Nsamp: 1, First: 1, N: 4}, {Op: "lagain"},
+			{Op: "lrun", Req: []int{1}, Nsamp: 1, First: 1, Geom: g(2, 4)}, {Op: "files", Base: "mid"}}},
+		{Avail: all, Ops: []Op{
+			{Op: "lrun", Req: []int{0}, Nsamp: 1, First: 1, Geom: g(2, 2)},
+			{Op: "lmid", Req: []int{0, 1}, Nsamp: 1, First: 1, N: 2}}},
+		{Avail: all, Ops: []Op{
+			{Op: "lrun", Req: []int{2}, Nsamp: 1, First: 1, Geom: g(2, 3)},
+			{Op: "lmid", Req: []int{2}, Nsamp: 1, First: 7, SepCols: 5, N: 3}, {Op: "files", Base: "mid", Off: true, Sel: "odd"}}},
 		// a pixel map is loaded when writing starts (right size, wrong sizes), with and without OFF
 		{Avail: all, Ops: []Op{
 			{Op: "lrun", Req: []int{0}, Nsamp: 1, First: 1, Geom: g(2, 2)},
@@ -741,8 +810,9 @@ func mapPixels(o Op, nchan, cpp int) int {
 func runCase(c Case) (res lib.Result) {
 	res = lib.Result{ID: c.ID, Hash: lib.Hash(struct {
 		A []int
+		H bool
 		O []Op
-	}{c.Avail, c.Ops})}
+	}{c.Avail, c.HW, c.Ops})}
 	tags := map[string]bool{}
 	var terms []string
 	var impl []interface{}
@@ -766,6 +836,9 @@ func runCase(c Case) (res lib.Result) {
 			if err != nil {
 				panic(err)
 			}
+			if c.HW {
+				lan.Lsync = 1000
+			}
 		}
 		return lan
 	}
@@ -780,12 +853,45 @@ func runCase(c Case) (res lib.Result) {
 					panicked = fmt.Sprint(e)
 				}
 			}()
-			lanceroStart := func(l *dastard.VerifC19Lancero, geom [][2]int) {
-				if err := l.SampleDouble(geom); err != nil {
-					obTerm, ob = "ORejCfg", "configure-error:"+err.Error()
+			lanceroStart := func(l *dastard.VerifC19Lancero, geom [][2]int, mid *Op) {
+				if mid != nil { // Start() marks the source Starting before it samples
+					if err := l.LS.SetStateStarting(); err != nil {
+						panic(err)
+					}
+					defer l.LS.SetStateInactive()
+				}
+				refused := l.ConfigRefused()
+				var serr error
+				if c.HW {
+					if !refused {
+						if err := l.InstallCards(geom); err != nil {
+							panic(err)
+						}
+					}
+					serr = l.LS.Sample() // the real one, on simulated cards
+					for try := 0; serr != nil && !refused && try < 3; try++ {
+						serr = l.LS.Sample() // sampling reads by wall clock; a starved read is no statement about identity
+					}
+					tags["lancero-real-sample"] = true
+				} else {
+					serr = l.SampleDouble(geom)
+				}
+				if serr != nil {
+					if !refused {
+						panic("Sample failed: " + serr.Error())
+					}
+					obTerm, ob = "ORejCfg", "configure-error:"+serr.Error()
 					last = nil
 					tags["lancero-config-refused"] = true
 					return
+				}
+				if mid != nil { // a ConfigureLanceroSource request arrives now
+					seqln := mid.N
+					if seqln <= 0 {
+						seqln = 2
+					}
+					l.Configure(mid.Req, mid.Nsamp, seqln, mid.First, mid.SepCards, mid.SepCols)
+					tags["lancero-configure-during-start"] = true
 				}
 				err := l.LS.PrepareChannels()
 				st := l.State()
@@ -828,11 +934,19 @@ func runCase(c Case) (res lib.Result) {
 					lastRows = seqln
 				}
 				l.Configure(o.Req, o.Nsamp, seqln, o.First, o.SepCards, o.SepCols)
-				lanceroStart(l, geom)
+				lanceroStart(l, geom, nil)
 			case "lagain":
-				opTerm = "LAgain"
+				opTerm = "LAgain " + pairList(o.Geom)
 				tags["lancero-start-again"] = true
-				lanceroStart(getLan(), nil)
+				if len(o.Geom) > 0 {
+					tags["lancero-start-again-other-geometry"] = true
+				}
+				lanceroStart(getLan(), o.Geom, nil)
+			case "lmid":
+				opTerm = fmt.Sprintf("LMid %s %s %s %s %s %s", lib.ZListInt(c.Avail), lib.ZListInt(o.Req), lib.Z(int64(o.Nsamp)),
+					lib.Z(int64(o.First)), lib.Z(int64(o.SepCards)), lib.Z(int64(o.SepCols)))
+				mid := o
+				lanceroStart(getLan(), nil, &mid)
 			case "aprep":
 				opTerm = "APrep " + pairList(o.Pk)
 				as := dastard.VerifC19NewAbaco()
